@@ -47,11 +47,11 @@ class C17(SCheck):
     K = {"quick": 1, "thorough": 2}
     technique = "deterministic simulation (input-driven): generated .gitignore x tree, `git check-ignore --no-index` as the oracle for git's semantics; runs under the supervisor with permuted walk order, short reads of the .gitignore file and one injected errno at stat/open/read/getdents calls on source entries"
     rule = ("case = source tree over a small name vocabulary (so that patterns hit) with nested dirs, hidden files, symlinks to files and dirs; "
-            ".gitignore of 1-6 lines drawn from literals, *, ?, **/, trailing /, leading /, ! negation, comments, blank lines; with and without "
+            ".gitignore of 1-6 lines drawn from literals, *, ?, **/, trailing /, leading /, ! negation, comments, blank lines, repeated lines; optionally a second source directory without .gitignore; with and without "
             "--gitignore; optional kernel per-call read limit (the file is read through short reads); oracle: set of relative paths in the "
             "destination == set git reports as not ignored (excluded directory => subtree excluded), .gitignore itself and hidden files "
             "present; without the flag nothing is filtered; non-trivial = git ignores at least one entry; distinct by (case, signature).  "
-            "Quantified over inputs: the simulator contributes replayability, walk-order permutation and the read clamps")
+            "Quantified over inputs: the simulator contributes replayability, walk-order permutation, the read clamps and a single-fault pass (one errno at sampled stat/open/read/getdents calls on source entries: the run may fail, it may not copy more)")
     assumptions = ["git 2.39 check-ignore is the reference for git's pattern semantics", ".gitignore exists only at the source root"]
 
     def gen_case(self, r, idx, tier):
